@@ -1,5 +1,6 @@
 import Gaftools.Props.C06e
 import Gaftools.Props.C15Bicc2
+import Gaftools.Proofs.ChainLemmas5
 /-!
 # C06 (final stretch) — `ChainCorrect`
 
@@ -10,16 +11,43 @@ definition-level decomposition (`Spec.Graph.blocks`, `cutVertices`) rather than 
 -/
 namespace Gaftools.C06
 open Gaftools.Gfa Gaftools.Algo Gaftools.Order Gaftools.Spec.Order Gaftools.Spec.Graph
+open Gaftools.Proofs.Chain
 
 /-- what `biccs` reports for the component, as `decompose` calls it -/
 abbrev rep (nb : V → List V) (comp : List V) : List (List V) × List V :=
   biccsFrom nb ((sortStrings comp).headD "") (biccFuel nb comp)
 
+/-- what `biccs` reports for a connected component, the articulation points sorted as `decompose` passes them on, is a
+    block–cut structure -/
+theorem rep_blockCut (nb : V → List V) (comp : List V) (hu : Undirected nb comp) (hd : comp.Nodup)
+    (hc : connectedB nb comp = true) (hne : comp ≠ []) :
+    BlockCut nb comp (rep nb comp).1 (sortStrings (rep nb comp).2) := by
+  have h := blockCut_biccs nb comp hu hd hc _ (root_mem comp hne)
+  exact h.congr_ap ((sortStrings_perm _).nodup_iff.mpr h.apNodup) (fun a => (sortStrings_perm _).mem_iff)
+
+/-- an empty component is never accepted -/
+theorem decompose_nil (nb : V → List V) (so : V → Option Int) (sn : V → Option String) (l : Local)
+    (hnb : nb "" = []) : decompose nb [] so sn ≠ .ok l := by
+  intro h
+  obtain ⟨s, hb, hf⟩ := decompose_ok_stages nb [] so sn l (by simp) h
+  have hrep : biccsFrom nb ((sortStrings []).headD "") (biccFuel nb []) = ([], []) := by
+    simp [sortStrings, biccsFrom, biccFuel, bgo, bstep, hnb]
+  rw [hrep] at hb
+  have hs : s = ⟨[], [], []⟩ := by
+    have : buildScaffold [] (sortStrings []) = .ok ⟨[], [], []⟩ := rfl
+    rw [this] at hb
+    injection hb with hb
+    exact hb.symm
+  have hcen := (finish_ok_census s _ so sn l hf).1
+  rw [hs] at hcen
+  simp at hcen
+
 /-- RUNG A — the scaffold graph built from the reported blocks and articulation points of a connected component is connected -/
 theorem scaffold_connected (nb : V → List V) (comp : List V) (hu : Undirected nb comp) (hd : comp.Nodup)
     (hc : connectedB nb comp = true) (hne : comp ≠ [])
-    (s : Scaffold) (hb : buildScaffold (rep nb comp).1 (sortStrings (rep nb comp).2) = .ok s) : SConnected s := by
-  sorry
+    (s : Scaffold) (hb : buildScaffold (rep nb comp).1 (sortStrings (rep nb comp).2) = .ok s) : SConnected s :=
+  sconnected_of_blockCut nb comp _ _ hu (rep_blockCut nb comp hu hd hc hne)
+    (fun a ha b hb' => Gaftools.Proofs.Bicc.connected_reach nb comp hu hc a b ha hb') s hb
 
 /-- RUNG B — `decompose_ok_chain` without hypotheses about `biccs` -/
 theorem decompose_ok_chain_full (nb : V → List V) (comp : List V) (so : V → Option Int) (sn : V → Option String) (l : Local)
@@ -31,10 +59,49 @@ theorem decompose_ok_chain_full (nb : V → List V) (comp : List V) (so : V → 
       l = ⟨(rep nb comp).2, s.bubbles.flatten, numberChain s tr, tr.length, s.bubbles.length⟩ ∧
       (scaffoldIds tr).mapM so = some cs ∧ strictlyIncreasing cs ∧
       (((scaffoldIds tr).map sn).eraseDups).length = 1 := by
-  sorry
+  have hne : comp ≠ [] := by
+    rintro rfl
+    exact decompose_nil nb so sn l (hu.outside "" (by simp)) h
+  have hbc := blockCut_biccs nb comp hu hd hc _ (root_mem comp hne)
+  exact decompose_ok_chain nb comp so sn l hlen h hbc.apNodup hbc.blNodup
+    (fun a ha => htab a (hbc.apSub a ha)) (fun s hb => scaffold_connected nb comp hu hd hc hne s hb)
 
 /-- RUNG C — the full statement -/
 theorem chainCorrect : ChainCorrect := by
-  sorry
+  intro nb comp so sn l hu hd hc htab h h2
+  by_cases hlen : comp.length = 1
+  · -- a single node: one articulation point is reported, so the hypothesis `2 ≤ l.aps.length` fails
+    exfalso
+    match comp, hlen with
+    | [v], _ =>
+      have : l = ⟨[v], [], [(v, 0, 0)], 1, 0⟩ := by
+        simp only [decompose] at h
+        injection h with h
+        exact h.symm
+      rw [this] at h2
+      simp at h2
+  · obtain ⟨s, tr, cs, hb, hp, hl, hso, hinc, _⟩ := decompose_ok_chain_full nb comp so sn l hu hd hc htab hlen h
+    have hne : comp ≠ [] := by
+      rintro rfl
+      exact decompose_nil nb so sn l (hu.outside "" (by simp)) h
+    have hbc := rep_blockCut nb comp hu hd hc hne
+    have hB : Built nb comp (rep nb comp).1 (sortStrings (rep nb comp).2) s tr := ⟨hbc, hb, hp⟩
+    have hreach : ∀ a ∈ comp, ∀ b ∈ comp, Reach nb a b :=
+      fun a ha b hb' => Gaftools.Proofs.Bicc.connected_reach nb comp hu hc a b ha hb'
+    have hex := C15.biccExact nb comp hu hd hc _ (root_mem comp hne)
+    have hsame : sameSets (rep nb comp).1 (blocks nb comp) = true := by
+      unfold biccExactB at hex
+      simp only [Bool.and_eq_true] at hex
+      exact hex.1
+    have hcv : ∀ a, a ∈ cutVertices nb comp ↔ a ∈ sortStrings (rep nb comp).2 := by
+      intro a
+      rw [(sortStrings_perm _).mem_iff, C15.biccs_aps_exact nb comp hu hd _ (root_mem comp hne) hc a]
+      unfold cutVertices
+      rw [List.mem_filter]
+    have g := bridge_of_sameSets hbc hsame (by unfold cutVertices; exact hd.filter _) hcv
+    have hall := hbc.all_in hreach hd hlen
+    have := chainSpec_of_built hB g hall so cs hso hinc
+    rw [hl]
+    exact this
 
 end Gaftools.C06
